@@ -1,4 +1,214 @@
+/-
+  C01 — File content fidelity: the positional kernel.
+  Model: AdfModel/FileUtil.lean (adfPos2DataBlock, adfFileSize2Datablocks, adfFileDatablocks2Extblocks,
+  adfFileRealSize) and the cursor conventions of AdfModel/File.lean.
+  Spec: a file of `s` bytes with data-block size `bs` (488 OFS / 512 FFS) occupies ⌈s/bs⌉ data blocks; data
+  block n is listed in the file header (slot n) when n < 72 and otherwise in extension block (n-72)/72 at
+  slot (n-72)%72.  All statements are for every position and size (no bound), both block sizes; the
+  32-bit side conditions of the C code (no wrap-around in pos - 72*bs, bs*72) are theorems too.
+  NOT proved here (see MANIFEST level_note): that the read/write/truncate loops of the model refine the
+  byte-array file; that verdict comes from the byte-array oracle on the real code.
+-/
 import AdfModel.FileUtil
 namespace Adf.C01
-theorem C01_placeholder : True := trivial
+open Adf
+
+theorem div_of_decomp (a bs q r : Nat) (h : a = bs * q + r) (hr : r < bs) : a / bs = q ∧ a % bs = r := by
+  subst h
+  have hbs : 0 < bs := by omega
+  constructor
+  · rw [Nat.mul_add_div hbs, Nat.div_eq_of_lt hr]; rfl
+  · rw [Nat.mul_add_mod, Nat.mod_eq_of_lt hr]
+
+theorem decomp (a bs : Nat) (hbs : 0 < bs) : ∃ q r, a = bs * q + r ∧ r < bs ∧ a / bs = q ∧ a % bs = r :=
+  ⟨a / bs, a % bs, (Nat.div_add_mod a bs).symm, Nat.mod_lt a hbs, rfl, rfl⟩
+
+/-- `adfPos2DataBlock` computes exactly the (block, offset, extension block, slot) of a byte position -/
+theorem C01_pos2DataBlock_spec (pos bs : Nat) (hbs : 0 < bs) :
+    let r := pos2DataBlock pos bs
+    r.curDataN = pos / bs ∧ r.posInDataBlk = pos % bs ∧
+    pos = r.curDataN * bs + r.posInDataBlk ∧ r.posInDataBlk < bs ∧
+    (pos / bs < 72 → r.extBlock = none ∧ r.posInExtBlk = 0) ∧
+    (72 ≤ pos / bs → r.extBlock = some ((pos / bs - 72) / 72) ∧ r.posInExtBlk = (pos / bs - 72) % 72) := by
+  unfold pos2DataBlock MAX_DATABLK
+  have hdm : pos = pos / bs * bs + pos % bs := by
+    rw [Nat.mul_comm]; exact (Nat.div_add_mod pos bs).symm
+  by_cases h : pos / bs < 72
+  · rw [if_pos h]
+    exact ⟨rfl, rfl, hdm, Nat.mod_lt _ hbs, fun _ => ⟨rfl, rfl⟩, fun h2 => absurd h (by omega)⟩
+  · rw [if_neg h]
+    have hge : 72 ≤ pos / bs := by omega
+    have hle : 72 * bs ≤ pos := (Nat.le_div_iff_mul_le hbs).mp hge
+    have h1 : (pos - bs * 72) / bs = pos / bs - 72 := by
+      obtain ⟨q, r, hq, hr, hd, _⟩ := decomp pos bs hbs
+      rw [hd] at hge ⊢
+      obtain ⟨q', rfl⟩ : ∃ q', q = q' + 72 := ⟨q - 72, by omega⟩
+      have : pos - bs * 72 = bs * q' + r := by rw [hq, Nat.mul_add]; omega
+      rw [this, (div_of_decomp _ bs q' r rfl hr).1]; omega
+    refine ⟨rfl, rfl, hdm, Nat.mod_lt _ hbs, fun h2 => absurd h2 h, fun _ => ⟨?_, ?_⟩⟩
+    · show some ((pos - bs * 72) / (bs * 72)) = some ((pos / bs - 72) / 72)
+      rw [← Nat.div_div_eq_div_mul, h1]
+    · show (pos - bs * 72) / bs % 72 = (pos / bs - 72) % 72
+      rw [h1]
+
+/-- no 32-bit wrap-around in the subtraction the C code performs: when the block index is ≥ 72 the
+    position is at least 72 blocks -/
+theorem C01_no_underflow (pos bs : Nat) (hbs : 0 < bs) (h : 72 ≤ pos / bs) : bs * 72 ≤ pos := by
+  have := (Nat.le_div_iff_mul_le hbs).mp h
+  rw [Nat.mul_comm]; exact this
+
+/-- the intermediate products stay in 32 bits for both block sizes -/
+theorem C01_no_overflow (bs : Nat) (h : bs = 488 ∨ bs = 512) : bs * 72 < 4294967296 := by
+  rcases h with rfl | rfl <;> decide
+
+/-- inverse direction: slot `s` of extension block `e` holds data block 72 + 72*e + s -/
+theorem C01_ext_slot_inverse (e s : Nat) (hs : s < 72) :
+    (72 + 72 * e + s - 72) / 72 = e ∧ (72 + 72 * e + s - 72) % 72 = s := by
+  omega
+
+/-- `adfFileSize2Datablocks` is the ceiling of size / block size -/
+theorem C01_size2Datablocks_ceil (fsize bs : Nat) (hbs : 0 < bs) :
+    fileSize2Datablocks fsize bs = (fsize + bs - 1) / bs := by
+  unfold fileSize2Datablocks
+  obtain ⟨q, r, hq, hr, hd, hm⟩ := decomp fsize bs hbs
+  rw [hd, hm]
+  by_cases h0 : r > 0
+  · rw [if_pos h0]
+    have : fsize + bs - 1 = bs * (q + 1) + (r - 1) := by rw [hq, Nat.mul_add]; omega
+    rw [this, (div_of_decomp _ bs (q + 1) (r - 1) rfl (by omega)).1]
+  · rw [if_neg h0]
+    have : fsize + bs - 1 = bs * q + (bs - 1) := by omega
+    rw [this, (div_of_decomp _ bs q (bs - 1) rfl (by omega)).1]; rfl
+
+/-- the data blocks of a file cover it exactly: n blocks hold `fsize` bytes and n-1 do not -/
+theorem C01_datablocks_cover (fsize bs : Nat) (hbs : 0 < bs) (hs : 0 < fsize) :
+    let n := fileSize2Datablocks fsize bs
+    1 ≤ n ∧ (n - 1) * bs < fsize ∧ fsize ≤ n * bs ∧ (fsize - 1) / bs = n - 1 := by
+  unfold fileSize2Datablocks
+  obtain ⟨q, r, hq, hr, hd, hm⟩ := decomp fsize bs hbs
+  simp only [hd, hm]
+  by_cases h0 : r > 0
+  · rw [if_pos h0]
+    simp only [Nat.add_sub_cancel]
+    have e1 : q * bs = bs * q := Nat.mul_comm _ _
+    have e2 : (q + 1) * bs = bs * q + bs := by rw [Nat.add_mul, e1]; simp
+    refine ⟨by omega, by omega, by omega, ?_⟩
+    have : fsize - 1 = bs * q + (r - 1) := by omega
+    rw [this, (div_of_decomp _ bs q (r - 1) rfl (by omega)).1]
+  · rw [if_neg h0]
+    have hr0 : r = 0 := by omega
+    subst hr0
+    simp only [Nat.add_zero] at hq ⊢
+    have hq1 : 1 ≤ q := by
+      rcases Nat.eq_zero_or_pos q with h | h
+      · subst h; simp at hq; omega
+      · exact h
+    obtain ⟨q', rfl⟩ : ∃ q', q = q' + 1 := ⟨q - 1, by omega⟩
+    simp only [Nat.add_sub_cancel]
+    have e1 : q' * bs = bs * q' := Nat.mul_comm _ _
+    have e2 : (q' + 1) * bs = bs * q' + bs := by rw [Nat.add_mul, e1]; simp
+    have e3 : bs * (q' + 1) = bs * q' + bs := by rw [Nat.mul_add]; simp
+    refine ⟨by omega, by omega, by omega, ?_⟩
+    have : fsize - 1 = bs * q' + (bs - 1) := by omega
+    rw [this, (div_of_decomp _ bs q' (bs - 1) rfl (by omega)).1]
+
+/-- `adfFileDatablocks2Extblocks`: number of extension blocks needed for n data blocks -/
+theorem C01_extblocks_spec (n : Nat) :
+    fileDatablocks2Extblocks n = (if n ≤ 72 then 0 else (n - 72 + 71) / 72) := by
+  unfold fileDatablocks2Extblocks MAX_DATABLK
+  by_cases h : n < 1
+  · have : n = 0 := by omega
+    subst this; simp
+  · simp only [h, ↓reduceIte]
+    by_cases h2 : n ≤ 72
+    · simp only [h2, ↓reduceIte]; omega
+    · simp only [h2, ↓reduceIte]; omega
+
+/-- the extension block that lists the LAST data block is the last extension block -/
+theorem C01_last_ext_index (n : Nat) (h : 72 < n) :
+    (n - 1 - 72) / 72 + 1 = fileDatablocks2Extblocks n := by
+  rw [C01_extblocks_spec]; simp only [show ¬ n ≤ 72 by omega, ↓reduceIte]; omega
+
+/-- `adfFileRealSize` agrees with the two inline helpers (they are separate code in C) -/
+theorem C01_realSize_agrees (size bs : Nat) (hbs : 0 < bs) :
+    (fileRealSize size bs).1 = fileSize2Datablocks size bs ∧
+    (fileRealSize size bs).2.1 = fileDatablocks2Extblocks (fileSize2Datablocks size bs) ∧
+    (fileRealSize size bs).2.2 = fileSize2Blocks size bs := by
+  have hd : (fileRealSize size bs).1 = fileSize2Datablocks size bs := by
+    unfold fileRealSize fileSize2Datablocks
+    by_cases hm : size % bs > 0
+    · have : size % bs ≠ 0 := by omega
+      simp [hm, this]
+    · have : size % bs = 0 := by omega
+      simp [this]
+  have he : (fileRealSize size bs).2.1 = fileDatablocks2Extblocks (fileSize2Datablocks size bs) := by
+    rw [← hd, C01_extblocks_spec]
+    unfold fileRealSize MAX_DATABLK
+    simp only
+    generalize size / bs + (if size % bs ≠ 0 then 1 else 0) = d
+    by_cases h : d > 72
+    · simp only [h, ↓reduceIte, show ¬ d ≤ 72 by omega]
+      by_cases h2 : (d - 72) % 72 = 0
+      · simp [h2]; omega
+      · simp [h2]; omega
+    · simp only [h, ↓reduceIte, show d ≤ 72 by omega]
+  refine ⟨hd, he, ?_⟩
+  unfold fileSize2Blocks fileSize2Extblocks
+  rw [← he, ← hd]
+  unfold fileRealSize
+  simp only
+  omega
+
+/-- shrinking never needs more blocks: the counts used by the truncation are monotone in the size, so the
+    number of blocks to release, (nD_old + nE_old) - (nD_new + nE_new), is a true difference -/
+theorem C01_truncate_monotone (old new bs : Nat) (hbs : 0 < bs) (h : new ≤ old) :
+    fileSize2Datablocks new bs ≤ fileSize2Datablocks old bs ∧
+    fileDatablocks2Extblocks (fileSize2Datablocks new bs) ≤ fileDatablocks2Extblocks (fileSize2Datablocks old bs) := by
+  have h1 : fileSize2Datablocks new bs ≤ fileSize2Datablocks old bs := by
+    rw [C01_size2Datablocks_ceil _ _ hbs, C01_size2Datablocks_ceil _ _ hbs]
+    exact Nat.div_le_div_right (by omega)
+  refine ⟨h1, ?_⟩
+  rw [C01_extblocks_spec, C01_extblocks_spec]
+  generalize fileSize2Datablocks new bs = a at h1 ⊢
+  generalize fileSize2Datablocks old bs = b at h1 ⊢
+  by_cases ha : a ≤ 72
+  · simp [ha]
+  · have hb : ¬ b ≤ 72 := by omega
+    simp only [ha, hb, ↓reduceIte]
+    exact Nat.div_le_div_right (by omega)
+
+/-- the end-of-file cursor convention of the handle (`adfFileSeekEOF_`): with the last block loaded,
+    `nDataBlock = ⌈s/bs⌉` and `posInDataBlk = bs` when the size is block-aligned, the decomposition
+    `pos = (nDataBlock-1)*bs + posInDataBlk` still gives the size -/
+theorem C01_eof_cursor (s bs : Nat) (hbs : 0 < bs) (hs : 0 < s) :
+    let n := fileSize2Datablocks s bs
+    let pidb := if s % bs = 0 then bs else s % bs
+    (n - 1) * bs + pidb = s ∧ 0 < pidb ∧ pidb ≤ bs := by
+  unfold fileSize2Datablocks
+  obtain ⟨q, r, hq, hr, hd, hm⟩ := decomp s bs hbs
+  simp only [hd, hm]
+  by_cases h0 : r = 0
+  · subst h0
+    simp only [Nat.lt_irrefl, ↓reduceIte, Nat.add_zero] at hq ⊢
+    have hq1 : 1 ≤ q := by
+      rcases Nat.eq_zero_or_pos q with h | h
+      · subst h; simp at hq; omega
+      · exact h
+    obtain ⟨q', rfl⟩ : ∃ q', q = q' + 1 := ⟨q - 1, by omega⟩
+    simp only [Nat.add_sub_cancel]
+    have e1 : q' * bs = bs * q' := Nat.mul_comm _ _
+    have e3 : bs * (q' + 1) = bs * q' + bs := by rw [Nat.mul_add]; simp
+    exact ⟨by omega, hbs, Nat.le_refl _⟩
+  · have hpos : r > 0 := by omega
+    simp only [h0, hpos, ↓reduceIte, Nat.add_sub_cancel]
+    have e1 : q * bs = bs * q := Nat.mul_comm _ _
+    exact ⟨by omega, trivial, by omega⟩
+
+/-- non-vacuity and the boundary cases of the property text, evaluated by the kernel -/
+example : pos2DataBlock (72 * 488) 488 = ⟨some 0, 0, 0, 72⟩ ∧ pos2DataBlock (72 * 488 - 1) 488 = ⟨none, 0, 487, 71⟩ ∧
+          pos2DataBlock (144 * 512 + 5) 512 = ⟨some 1, 0, 5, 144⟩ ∧
+          fileSize2Datablocks (72 * 512) 512 = 72 ∧ fileSize2Datablocks (72 * 512 + 1) 512 = 73 ∧
+          fileDatablocks2Extblocks 72 = 0 ∧ fileDatablocks2Extblocks 73 = 1 ∧ fileDatablocks2Extblocks 144 = 1 ∧
+          fileDatablocks2Extblocks 145 = 2 := by decide
+
 end Adf.C01
